@@ -920,6 +920,26 @@ def _hz_truthy_ok(n, xs):
     return out
 
 
+def _hz_view(state, k):
+    g = getattr(state, "graph", None)
+    g.setdefault("edges", {})
+    rec = g.get("edges", {}).get(k)
+    if not isinstance(rec, dict):
+        return 0.0
+    return rec.get("weight", 0.0)
+
+
+def _hz_view_ok(state, k):
+    from collections.abc import Mapping
+    g = getattr(state, "graph", None) or {}
+    rec = g.get("edges", {}).get(k)
+    if not isinstance(rec, Mapping):
+        return 0.0
+    out = dict(rec)
+    out.setdefault("weight", 0.0)
+    return out["weight"]
+
+
 def _hz_rebind(frontier, entry, cap):
     frontier.append(entry)
     if len(frontier) > cap:
@@ -983,10 +1003,134 @@ def controls(ctx, host_module: str, kinds: Sequence[str]) -> str:
     if "rebind" in kinds:
         g = lambda nm: m.funcs[[k for k in m.funcs if k.split(".")[-1] == nm][0]]
         got["rebind"] = (len(lost_param_rebinding(pc, g("_hz_rebind"))), len(lost_param_rebinding(pc, g("_hz_rebind_ok"))))
+    if "view" in kinds:
+        g = lambda nm: m.funcs[[k for k in m.funcs if k.split(".")[-1] == nm][0]]
+        a, b = frozen_view_hazards(pc, [(g("_hz_view"), "state")]), frozen_view_hazards(pc, [(g("_hz_view_ok"), "state")])
+        got["viewgate"] = (len(a[0]), len(b[0]))
+        got["viewmut"] = (len(a[1]), len(b[1]))
     bad = {k: v for k, v in got.items() if not (v[0] >= 1 and v[1] == 0)}
     if bad:
         raise AnalysisError(f"hazard positive control failed: {bad}")
     return ", ".join(f"{k}: broken probe reported {v[0]}x, sound probe 0x" for k, v in sorted(got.items()))
+
+
+_CONTAINER_TYPES = {"dict", "list", "tuple", "set"}
+_CONTAINER_MUTATORS = {"setdefault", "append", "extend", "update", "pop", "popitem", "clear", "insert", "remove", "add", "sort", "reverse", "discard"}
+
+
+def _view_derivation(prog, fn: Func, roots, derived0, _depth: int = 0):
+    """(derived names, rooted) for fn when the parameters `roots` hold the viewed object and `derived0` values taken out of it"""
+    derived = set(derived0)
+
+    def rooted(e: ast.AST) -> int:
+        """0 = unrelated, 1 = the viewed object itself, 2 = a value taken out of it"""
+        if isinstance(e, ast.Name):
+            return 2 if e.id in derived else (1 if e.id in roots else 0)
+        if isinstance(e, (ast.Attribute, ast.Subscript)):
+            return 2 if rooted(e.value) else 0
+        if isinstance(e, ast.Call):
+            f = e.func
+            if isinstance(f, ast.Name) and f.id == "getattr" and e.args:
+                return 2 if rooted(e.args[0]) else 0
+            if isinstance(f, ast.Attribute) and f.attr in ("get", "items", "values"):
+                return 2 if rooted(f.value) else 0
+            # a program function that hands back (part of) what it was given
+            if _depth < 2 and any(rooted(a) for a in e.args if not isinstance(a, ast.Starred)):
+                r = prog.callee(fn, e)
+                if r and r[0] == "func" and prog.has_func(r[1]):
+                    cal = prog.func(r[1])
+                    ps = [p for p in cal.params if p not in ("self", "cls")]
+                    nr = {ps[i] for i, a in enumerate(e.args) if i < len(ps) and not isinstance(a, ast.Starred) and rooted(a) == 1}
+                    nd = {ps[i] for i, a in enumerate(e.args) if i < len(ps) and not isinstance(a, ast.Starred) and rooted(a) == 2}
+                    _, rt = _view_derivation(prog, cal, frozenset(nr), frozenset(nd), _depth + 1)
+                    if any(isinstance(y, ast.Return) and y.value is not None and rt(y.value) for y in walk_no_defs(cal.node)):
+                        return 2
+            return 0
+        if isinstance(e, ast.BoolOp):
+            return max(rooted(v) for v in e.values)
+        if isinstance(e, ast.IfExp):
+            return max(rooted(e.body), rooted(e.orelse))
+        if isinstance(e, ast.NamedExpr):
+            return rooted(e.value)
+        return 0
+
+    for _ in range(3):
+        for x in walk_no_defs(fn.node):
+            if isinstance(x, ast.Assign) and len(x.targets) == 1 and isinstance(x.targets[0], ast.Name) and rooted(x.value) == 2:
+                derived.add(x.targets[0].id)
+            elif isinstance(x, ast.AnnAssign) and isinstance(x.target, ast.Name) and x.value is not None and rooted(x.value) == 2:
+                derived.add(x.target.id)
+            elif isinstance(x, ast.NamedExpr) and isinstance(x.target, ast.Name) and rooted(x.value) == 2:
+                derived.add(x.target.id)
+            elif isinstance(x, (ast.For, ast.comprehension)) and rooted(x.iter) == 2:
+                names = [y for y in ast.walk(x.target) if isinstance(y, ast.Name)]
+                # `for k, v in d.items()`: only the value is taken out of the view
+                if isinstance(x.iter, ast.Call) and isinstance(x.iter.func, ast.Attribute) and x.iter.func.attr == "items" and isinstance(x.target, ast.Tuple) and len(x.target.elts) == 2:
+                    names = [y for y in ast.walk(x.target.elts[1]) if isinstance(y, ast.Name)]
+                derived |= {y.id for y in names}
+        derived -= set(roots)
+    return derived, rooted
+
+
+def frozen_view_hazards(ctx, entries: Sequence[Tuple[Func, str]], depth: int = 3, within: Sequence[str] = ()):
+    """A facade that hands out the containers of an object as read-only VIEWS (mappings that are not dicts, sequences that
+    are not lists, no mutators) breaks two kinds of reader code, silently: (a) a test of the EXACT container type
+    (`isinstance(v, dict)`) on a value taken out of the viewed object - the false branch treats real data as absent; (b) an
+    in-place completion of such a value (`v.setdefault(...)`, `v[k] = ...`) - it raises on the view (and edits the caller's
+    object when it does not).  `entries` are (function, parameter) pairs naming where the viewed object enters; values derived
+    from it are followed through assignments, loops over them, program functions that hand them back and calls into program
+    functions (to `depth`, inside the module prefixes `within`).
+    Returns (gates, mutations): lists of (Func, node, text of the value)."""
+    prog = ctx.prog
+    gates, muts = [], []
+    seen = set()
+    work = [(fn, frozenset([p]), frozenset(), 0) for fn, p in entries]
+    while work:
+        fn, roots, derived0, d = work.pop()
+        key = (fn.qual, roots, derived0)
+        if key in seen:
+            continue
+        seen.add(key)
+        derived, rooted = _view_derivation(prog, fn, roots, derived0)
+        for x in walk_no_defs(fn.node):
+            if isinstance(x, ast.Call) and isinstance(x.func, ast.Name) and x.func.id == "isinstance" and len(x.args) == 2 and rooted(x.args[0]) == 2:
+                tys = x.args[1].elts if isinstance(x.args[1], ast.Tuple) else [x.args[1]]
+                names = {dotted(t) or "" for t in tys}
+                if names and names <= _CONTAINER_TYPES:
+                    gates.append((fn, x, src(x.args[0])))
+            elif isinstance(x, ast.Call) and isinstance(x.func, ast.Attribute) and x.func.attr in _CONTAINER_MUTATORS and rooted(x.func.value) == 2:
+                muts.append((fn, x, src(x.func.value)))
+            elif isinstance(x, (ast.Assign, ast.AugAssign, ast.Delete)):
+                tg = x.targets if isinstance(x, (ast.Assign, ast.Delete)) else [x.target]
+                for t in tg:
+                    if isinstance(t, ast.Subscript) and rooted(t.value) == 2:
+                        muts.append((fn, x, src(t.value)))
+        if d >= depth:
+            continue
+        for x in walk_no_defs(fn.node):
+            if not isinstance(x, ast.Call):
+                continue
+            r = prog.callee(fn, x)
+            if not r or r[0] != "func" or not prog.has_func(r[1]):
+                continue
+            cal = prog.func(r[1])
+            if within and not any(cal.module.name.startswith(w) for w in within):
+                continue
+            ps = [p for p in cal.params if p not in ("self", "cls")]
+            nr, nd = set(), set()
+            for i, a in enumerate(x.args):
+                if i < len(ps) and not isinstance(a, ast.Starred):
+                    k = rooted(a)
+                    (nr if k == 1 else nd if k == 2 else set()).add(ps[i])
+            for kw in x.keywords:
+                if kw.arg in ps:
+                    k = rooted(kw.value)
+                    (nr if k == 1 else nd if k == 2 else set()).add(kw.arg)
+            if nr or nd:
+                work.append((cal, frozenset(nr), frozenset(nd), d + 1))
+    # one report per site
+    uniq = lambda rows: list({(f.qual, getattr(n, "lineno", 0), getattr(n, "col_offset", 0)): (f, n, t) for f, n, t in rows}.values())
+    return uniq(gates), uniq(muts)
 
 
 def conversions_under_loop_wide_try(ctx, fn) -> List[Tuple[ast.AST, ast.Try, ast.AST]]:
